@@ -284,7 +284,40 @@ def fam_contraction(rng):
     return thunk
 
 
+def fam_slices(rng):
+    """chained Slice substitutions: a Slice substituted into a Slice (directly, and through the fusion of two
+    nested Subs on a lazy term), strides > 1 and non-zero starts on both."""
+    from funsor.terms import Slice
+
+    def thunk():
+        n = rng.choice([5, 6, 7, 8])
+        a = rng.randrange(0, 3)
+        st = rng.choice([1, 2, 2, 3])
+        b = rng.randrange(a + 1, n + 1)
+        m = len(range(a, b, st))
+        c = rng.randrange(0, m)
+        st2 = rng.choice([1, 1, 2])
+        d = rng.randrange(c + 1, m + 1) if c < m else m
+        outer = Slice("i", a, b, st, n)
+        inner = Slice("j", c, d, st2, m)
+        t = _t(rng, OrderedDict(i=Bint[n], k=Bint[2]), kind="int")
+        k = rng.randrange(5)
+        if k == 0:
+            return outer(i=inner)                                   # Slice.eager_subs with a Slice
+        if k == 1:
+            return t(i=outer)(i=inner) if False else t(i=outer(i=inner))
+        if k == 2:
+            x = t * Variable("w", Real)                             # lazy: the two Subs are fused
+            return x(i=outer)(j=inner) if False else x(i=Slice("j", a, b, st, n))(j=Slice("l", c, d, st2, m))
+        if k == 3:
+            return t(i=Slice("j", a, b, st, n))(j=Slice("l", c, d, st2, m))
+        p = rng.randrange(len(range(c, d, st2)))
+        return outer(i=inner)(j=Number(p, len(range(c, d, st2))))
+    return thunk
+
+
 FAMILIES = OrderedDict([
+    ("slices", fam_slices),
     ("contraction", fam_contraction),
     ("delta", fam_delta), ("independent", fam_independent), ("align", fam_align), ("tuple", fam_tuple),
     ("finitary", fam_finitary), ("lambda", fam_lambda), ("constant", fam_constant), ("arith", fam_arith),
